@@ -91,6 +91,10 @@ func init() {
 		}
 		r := t.havocTemp("tz", SInt, intT)
 		t.cur.Assume(And(ILe(IntLit(0), r), ILe(r, IntLit(64)), Eq(Eq(r, IntLit(64)), Eq(x, IntLit(0)))))
+		// at the byte granularity the code uses: at least 8k trailing zeros only if x is a multiple of 256^k
+		for k := 1; k <= 7; k++ {
+			t.cur.Assume(Implies(IGe(r, IntLit(int64(8*k))), Eq(mk("mod", SInt, x, BigLit(pow2(8*k))), IntLit(0))))
+		}
 		// x is a multiple of 2^r and not of 2^(r+1): stated for the byte granularity the code uses
 		return []sval{{e: r, typ: intT}}
 	}
